@@ -38,6 +38,21 @@ def _rho_data(nprng, nrho, n, scale=1.0):
     if nrho > 4:
         sig = (rho[1:4] ** 2).sum(0)
         rho[4] = sig / (8 * rho[0]) + np.abs(nprng.normal(size=n)) * rho[0] ** (5.0 / 3)
+    # real densities are not generic: runs of bit-identical points (uniform regions, padded
+    # arrays) and tails below every cutoff
+    style = int(nprng.integers(0, 4))
+    if n > 3 and style == 1:
+        rep = nprng.random(n) < 0.3
+        rep[0] = False
+        for g in np.nonzero(rep)[0]:
+            rho[:, g] = rho[:, g - 1]
+    elif n > 3 and style == 2:
+        k = int(nprng.integers(1, n))
+        rho[:, k:] = rho[:, k - 1 : k]  # constant tail
+    elif n > 3 and style == 3:
+        tail = nprng.random(n) < 0.25
+        rho[0, tail] = 10.0 ** nprng.uniform(-14, -10, int(tail.sum()))
+        rho[1:, tail] *= 1e-12
     return rho
 
 
